@@ -74,6 +74,15 @@ Definition wf_num (x : fl) : Prop :=
   | _ => False
   end.
 
+(** every <real> below a value is finite *)
+Fixpoint reals_finite (v : pv) : bool :=
+  match v with
+  | PReal x => fl_finite x
+  | PArr l => forallb reals_finite l
+  | PDict d => forallb (fun kx : str * pv => reals_finite (snd kx)) d
+  | _ => true
+  end.
+
 Section Files.
 Variable pf : str -> option fl.
 Variables ff ff3 : fl -> str.
@@ -156,6 +165,23 @@ Definition files4 : codecs4 := {|
   K4_wf_key := fun _ => True; K4_wf_pv := wf_pv_real; K4_lower := lw |}.
 
 End Files.
+
+(** What the lib / kerning / layerinfo readers do NOT guarantee, said of the files of one tree:
+    - the <real>s of lib.plist and of a layer lib are finite ([f64::from_str] reads inf and NaN);
+    - the numbers of kerning.plist are finite, in canonical form, and not -0.0;
+    - a layer colour is a fixed point of the three-decimal rendering.
+    Everything else those readers return lies in their writers' domains (Proofs/PlistReadP.v,
+    Proofs/FontRealFilesP.v). *)
+Definition input_numbers_ok pf ff ff3 fi fh to_bits of_bits lw
+  (t : tree (real_sig pf ff ff3 fi fh (all_files pf ff ff3 fi to_bits of_bits lw))) : Prop :=
+  (forall n d, t_lib _ t = Some (RBase _ n) -> plist_value pf n = Some (PDict d) ->
+               reals_finite (PDict d) = true) /\
+  (forall n k, t_kerning _ t = Some (RBase _ n) -> obind (plist_value pf n) (pv_kerning to_bits) = Some k ->
+               Forall (fun e => Forall (fun p => kn_wf of_bits (snd p)) (snd e)) k) /\
+  (forall dn dir n c ol, alookup dn (t_dirs _ t) = Some dir -> ld_info _ dir = Some (RBase _ n) ->
+               obind (plist_value pf n) (pv_li pf) = Some (c, ol) ->
+               (forall x, c = Some x -> color_fixed pf ff3 x) /\
+               (forall l, ol = Some l -> reals_finite (PDict l) = true)).
 
 (** sample values of the four domains *)
 Definition lib_sample : dict :=
